@@ -1,5 +1,6 @@
 //! Conformance harness shared code: event log (ndjson), wake-driven executor,
 //! scripted mock streams/sinks.
+pub mod clock;
 pub mod evlog;
 pub mod exec;
 pub mod mock;
